@@ -70,6 +70,11 @@ std::vector<CheckDef>& check_table()
 		  "then sync plain / -h / -N / -B partial / killed after the parity update / single-threaded, repeated. Judged: the reference hash of every block recorded as synced equals the recorded hash and the independent parity oracle holds after every command; a decoy that the scan took for a copy is reported and fails the sync (complete syncs), "
 		  "--force-nocopy inherits nothing, with --pre-hash the parity is not modified. Second half: a recorded file is lost while decoys sit on other disks and in an import directory (-i and --test-import-content; right name/size/stamp with wrong bytes, all-but-last-block right, honest copy under another name), parity possibly lost too, "
 		  "then fix/check: the file gets exactly its recorded bytes or is reported unrecoverable (the C05 oracle, reported under C19). Non-trivial = a sync in which a decoy was taken for a copy, or a fix that judged a file" },
+		{ "C17", "exploration", { { "split", 800, 20000 } },
+		  "twin arrays over the same data directories: A with one parity file per level, B with 2-8 (quick 2-5) files per level limited by --test-parity-limit L (L not block aligned) or by per-device byte budgets enforced by the file layer (real ENOSPC from fallocate/ftruncate/pwrite, with and without --test-skip-fallocate). "
+		  "Seeded histories grow and shrink the array across split boundaries; after each pair of syncs: recorded split sizes are block multiples, files at least that long, no used split after an empty one, sizes cover the array, concat(B splits truncated to recorded sizes) == A's parity on every used stripe of every level, "
+		  "independent parity oracle through the split map (always on), documented refusal 'Insufficient parity space' leaves the content unchanged and the sync succeeds once the limit is lifted; fix after losing a split file or a data disk restores everything through the split map and check is clean. "
+		  "Non-trivial = a round in which both twins synced with identical layouts and were compared; distinct = distinct content files of B" },
 		{ "C06", "exploration", { { "parity-inv", 4000, 80000 }, { "crash", 16, 400 } },
 		  "seeded histories of file-system changes interleaved with sync variants/scrub/fix/touch/rehash/check under seeded schedules; the independent parity oracle runs after every command. "
 		  "A run is non-trivial when at least one fully synced stripe was compared with parity and >= 3 commands ran; distinct = distinct (config, op sequence) hashes" },
